@@ -1,6 +1,6 @@
 INIT Init
 NEXT Next
 CONSTANTS
-  DropIds = TRUE
+  DropIds = FALSE
   FoldAnyRight = FALSE
-  FoldLeftConst = FALSE
+  FoldLeftConst = TRUE
